@@ -14,7 +14,9 @@ TypesTrack == {T("DiffuseDroplet", "d3w"), T("PerturbedDroplet3D", "d3w3"), T("P
 \* time patterns (index -> time), tenths; the harness maps them to ints / floats / negative / non-uniform values
 TP1 == <<0, 1, 2, 3>>
 TP2 == <<0 - 25, 0, 7, 40>>
-Patterns == {TP1, TP2}
+\* not ascending: a time course / track keeps the order in which it was built, whatever the time stamps say
+TP3 == <<3, 1, 2, 0>>
+Patterns == {TP1, TP2, TP3}
 Patterns1 == {TP2}
 TwoPaths == {"a", "b"}
 OnePath == {"a"}
